@@ -192,7 +192,24 @@ func NewMigrated(provs []ProvSpec, wrap func(acme.DB) acme.DB) (*Env, error) {
 	return newEnv(provs, wrap, true)
 }
 
+// Options for NewWith. WrapNoSQL interposes on the nosql handle the ACME store is built on (below
+// acme/db/nosql: Get, CmpAndSwap, …); the authority keeps the handle as it is.
+type Options struct {
+	Wrap      func(acme.DB) acme.DB
+	WrapNoSQL func(nosql.DB) nosql.DB
+	Migrate   bool
+}
+
+func NewWith(provs []ProvSpec, o Options) (*Env, error) {
+	return newEnvOpts(provs, o)
+}
+
 func newEnv(provs []ProvSpec, wrap func(acme.DB) acme.DB, migrate bool) (*Env, error) {
+	return newEnvOpts(provs, Options{Wrap: wrap, Migrate: migrate})
+}
+
+func newEnvOpts(provs []ProvSpec, opt Options) (*Env, error) {
+	wrap, migrate := opt.Wrap, opt.Migrate
 	dir, err := os.MkdirTemp(tmpBase(), "verif-acme-")
 	if err != nil {
 		return nil, err
@@ -264,7 +281,11 @@ func newEnv(provs []ProvSpec, wrap func(acme.DB) acme.DB, migrate bool) (*Env, e
 		return nil, errors.New("authority database is not a nosql.DB")
 	}
 	e.NoSQL = ndb
-	e.RealDB, err = acmeNoSQL.New(ndb)
+	below := ndb
+	if opt.WrapNoSQL != nil {
+		below = opt.WrapNoSQL(ndb)
+	}
+	e.RealDB, err = acmeNoSQL.New(below)
 	if err != nil {
 		return nil, err
 	}
